@@ -151,6 +151,11 @@ SIG_OPS = {
     'OP_GET_MESSAGE': (lambda: b'\x00', []),
     'OP_SIGN': (lambda: b'\x00', [32]),
     'OP_CHECK_MULTISIG': (lambda: b'\x00\x01\x01', [64, 32]),
+    # quorums with zero, several and non-first key attempts: still exactly one run per instruction
+    'OP_CHECK_MULTISIG/0of1': (lambda: b'\x00\x00\x01', [32]),
+    'OP_CHECK_MULTISIG/1of2': (lambda: b'\x00\x01\x02', [64, 32, 32]),
+    'OP_CHECK_MULTISIG/2of2': (lambda: b'\x00\x02\x02', [64, 64, 32, 32]),
+    'OP_CHECK_MULTISIG_VERIFY/2of3': (lambda: b'\x00\x02\x03', [64, 64, 32, 32, 32]),
     'OP_CHECK_TEMPLATE': (lambda: b'\x01', [1]),
     'OP_TAPROOT': (lambda: b'\x00', [64, 32]),
 }
@@ -167,7 +172,8 @@ def h_plugin_once(c, pkg, op):
     for i, n in enumerate(lens):
         stack.put(c.bytes(f's{i}', n))
     cache = SDict({'sigfield1': c.bytes('sigfield1', 1)})
-    r = outcome_of(getattr(F, op), tape, stack, cache)
+    stubs.CONFIG.sig_mode = 'oracle'
+    r = outcome_of(getattr(F, op.split('/')[0]), tape, stack, cache)
     n = log.count('sigext')
     want = 1
     c.check('signature_extension_runs_exactly_once', n == want, op=op, calls=n, outcome=repr(r)[:80])
@@ -186,7 +192,7 @@ def r_plugin_once(inputs, params, obligation):
     stack = tapescript.Stack()
     for i, n in enumerate(lens):
         stack.put(inputs.get(f's{i}', b'\x00' * n))
-    outcome_of(getattr(RF, op), tape, stack, {'sigfield1': inputs.get('sigfield1', b'a')})
+    outcome_of(getattr(RF, op.split('/')[0]), tape, stack, {'sigfield1': inputs.get('sigfield1', b'a')})
     return {'reproduced': len(calls) != 1, 'calls': len(calls)}
 
 
